@@ -114,7 +114,8 @@ def b2LineDeliveredFrom (rest : VBytes) (o peeked : Nat) : VBytes × Nat :=
 def runBtor2Case (line : String) : String × String :=
   let fs := fields line
   if field fs "v" != "" then runValidatorCase (field fs "v") else
-  let ls := field fs "ls" == "1"
+  let lsb := field fs "ls" == "2"   -- one byte per read
+  let ls := field fs "ls" == "1" || lsb
   let full := dataField (field fs "d")
   let (data, fault) := match (field fs "k").toNat? with
     | some k => (full.take k, true)
@@ -132,7 +133,8 @@ def runBtor2Case (line : String) : String × String :=
         let (c1, s1) := match l with
           | .comment _ => (1, 0)
           | .node n => ((if n.comment.isSome then 1 else 0), (if n.symbol.isSome then 1 else 0))
-        let cur' := if ls then b2LineDeliveredFrom cur.1 cur.2 lr'.v.peeked else cur
+        let cur' := if lsb then (cur.1, min lr'.v.peeked data.length)
+                    else if ls then b2LineDeliveredFrom cur.1 cur.2 lr'.v.peeked else cur
         let at_ := if ls then s!"@{cur'.2}" else ""
         drive f lr' cur' (s!"{b2Line l}{at_}" :: acc) (cm + c1) (sy + s1)
       | (.ok none, _) => (acc.reverse, "END", cm, sy)
